@@ -59,6 +59,12 @@ structure TS where
   repairedStale : Bool := false               -- after repair, file numbering disagrees with data age (known finding F3)
   nRepairs : Nat := 0
   known : List String := []
+  expectFail : Bool := false
+  inFailedOpen : Bool := false
+  backups : List (String × Run) := []
+  foreign : List String := []
+  nLifecycle : Nat := 0
+  destroyed : Bool := false
   nLongIterOps : Nat := 0
   lastW : List WOp := []
   lastWF : List WOp := []
@@ -253,6 +259,14 @@ def isLog (n : String) : Option Nat := if n.endsWith ".log" then (n.dropEnd 4).t
 def handleLs (t : TS) (names : String) : TS :=
   let t := { t with nLs := t.nLs + 1 }
   let ns := if names == "." then [] else names.splitOn ","
+  if t.destroyed then
+    -- destroy removes the database's own files and nothing else
+    let t := { t with destroyed := false }
+    let owned := ns.filter (fun n => (parseFileName n).isSome)
+    let t := if owned.isEmpty then t else t.problem "VIOLATION[lifecycle]" s!"destroy left database files behind: {owned}"
+    let gone := t.foreign.filter (fun n => !ns.contains n)
+    if gone.isEmpty then t else t.problem "VIOLATION[lifecycle]" s!"destroy removed files that do not belong to the database: {gone}"
+  else if !t.isOpen then t else
   -- the keep rules of ldb_remove_obsolete_files (Model/Files.lean) evaluated on the model state: at a quiescent
   -- point (no iterator, no compaction) the only live version is the current one and nothing is pending
   let gs : Files.GcState := { liveVersions := [(allFiles t.st).map (·.num)] ++ t.pinned.map (·.2), pending := [], logNumber := t.logNum, prevLogNumber := 0,
@@ -359,12 +373,29 @@ def handleLine (t : TS) (line : String) : TS :=
   let t := { t with lineNo := t.lineNo + 1 }
   let fields := line.trimAscii.toString.splitOn " "
   let t := match fields with
-    | "j" :: idx :: rest => if t.faultMode then t else { t with io := t.io.line idx rest }
+    | "j" :: idx :: rest =>
+      let t := if t.inFailedOpen then
+          (match rest with
+           | "mark" :: "open-end" :: _ => { t with inFailedOpen := false }
+           | kind :: name :: _ =>
+             let owned := match parseFileName name with
+               | some (.log, _) | some (.table, _) | some (.desc, _) | some (.current, _) | some (.temp, _) => true
+               | _ => false
+             if owned && (kind == "write" || kind == "unlink" || kind == "rename" || (kind == "create" && rest.getD 2 "" == "1")) then
+               t.problem "VIOLATION[lifecycle]" s!"an open that was refused modified the database: {kind} {name}"
+             else t
+           | _ => t)
+        else t
+      if t.faultMode then t else { t with io := t.io.line idx rest }
     | _ => t
   match fields with
   | ["open", rc, c] =>
-    if rc != "0" then t.problem "MISMATCH[other]" s!"open failed rc={rc}"
+    if rc != "0" then
+      (if t.expectFail then { t with expectFail := false, inFailedOpen := true, nLifecycle := t.nLifecycle + 1 }
+       else t.problem "MISMATCH[other]" s!"open failed rc={rc}")
     else
+      let t := if t.expectFail then t.problem "VIOLATION[lifecycle]" "an open that must be refused (wrong comparator) succeeded" else t
+      let t := { t with expectFail := false }
       let cmp := if c == "cmp=rev" then Cmp.reverse else if c == "cmp=len" then Cmp.lenFirst else Cmp.bytewise
       -- a reopen with nothing replayed still empties the (already empty) memtables
       let st := if t.repairing then { t.st with snaps := [], mem := [], imm := none } else { t.st with snaps := [] }
@@ -388,6 +419,41 @@ def handleLine (t : TS) (line : String) : TS :=
     | some n, some sz, some run => { t with rfiles := (n, sz, run) :: t.rfiles, files := (n, sz, run) :: t.files.filter (fun p => p.1 != n) }
     | _, _, _ => t.problem "MISMATCH[other]" "unparsable rfile dump"
   | ["repaired-state"] => t    -- the `ver` line that follows rebuilds the model state
+  | ["expectfail"] => { t with expectFail := true }
+  | ["open2", rc] =>
+    let t := { t with nLifecycle := t.nLifecycle + 1 }
+    if t.isOpen && rc == "0" then t.problem "VIOLATION[lifecycle]" "the database directory was opened a second time while a handle is open"
+    else if !t.isOpen && rc != "0" then t.problem "VIOLATION[lifecycle]" s!"open after close failed rc={rc} (lock not released?)"
+    else t
+  | ["lockprobe", x] =>
+    let t := { t with nLifecycle := t.nLifecycle + 1 }
+    if t.isOpen && x == "0" then t.problem "VIOLATION[lifecycle]" "another process could open the database while this process holds it open (the advisory lock is not held)"
+    else if !t.isOpen && t.everOpened && x != "0" then t.problem "VIOLATION[lifecycle]" "another process cannot open the database after it was closed (lock not released)"
+    else t
+  | ["backup", rc, name] =>
+    let t := { t with nLifecycle := t.nLifecycle + 1 }
+    if rc != "0" then t.problem "VIOLATION[lifecycle]" s!"backup failed rc={rc}"
+    else { t with backups := (name, allEntries t.st) :: t.backups.filter (fun p => p.1 != name) }
+  | ["copy", rc, name] =>
+    let t := { t with nLifecycle := t.nLifecycle + 1 }
+    if rc != "0" then t.problem "VIOLATION[lifecycle]" s!"copy failed rc={rc}"
+    else { t with backups := (name, allEntries t.st) :: t.backups.filter (fun p => p.1 != name) }
+  | ["bcheck", name, rc, entries] =>
+    let t := { t with nLifecycle := t.nLifecycle + 1 }
+    match t.backups.find? (fun p => p.1 == name), parseEntries entries with
+    | some (_, src), some run =>
+      if rc != "rc=0" then t.problem "VIOLATION[lifecycle]" s!"backup {name} cannot be opened: {rc}"
+      else
+        let keys := userKeys t.cmp (src ++ run)
+        let bad := keys.filter (fun k => lastView t.cmp run k != lastView t.cmp src k)
+        let invented := run.filter (fun e => !t.history.contains e)
+        let t := if invented.isEmpty then t else t.problem "VIOLATION[lifecycle]" s!"backup {name} holds entries that were never written: [{showRunBrief invented}]"
+        if bad.isEmpty then t else t.problem "VIOLATION[lifecycle]" s!"backup {name}: key {hexOfBytes (bad.headD [])} reads {lastView t.cmp run (bad.headD [])}, the source had {lastView t.cmp src (bad.headD [])} when the backup was taken"
+    | _, _ => t.problem "MISMATCH[other]" s!"bcheck of unknown backup {name}"
+  | ["foreign", name] => { t with foreign := name :: t.foreign }
+  | ["destroy", rc] =>
+    let t := { t with nLifecycle := t.nLifecycle + 1, st := ({} : TS).st, history := [], files := [], batches := [], everOpened := false, isOpen := false, logNum := 0 }
+    if rc == "0" then { t with destroyed := true } else t.problem "VIOLATION[lifecycle]" s!"destroy failed rc={rc}"
   | ["faultmode"] => { t with faultMode := true }
   | ["seq0", n] =>
     match n.toNat? with
@@ -528,4 +594,4 @@ def main : IO Unit := do
     IO.println p
   for k in t.known do
     IO.println s!"KNOWN {k}"
-  IO.println s!"done lines={t.lineNo} writes={t.nWrites} gets={t.nGets} iterops={t.nIter} flushes={t.nFlush} compactions={t.nCompact} trivialmoves={t.nTrivial} recoveries={t.nRecover} invchecks={t.nInv} vers={t.nVer} ls={t.nLs} repairs={t.nRepairs} liveiterops={t.nLongIterOps} crashes={t.nCrash} crashes2={t.nCrash2} crashnonempty={t.nCrashNontrivial} jevents={t.nJ} ioevents={t.io.nEvents} edits={t.io.nEdits} conforms={if t.io.mon.ok then 1 else 0} conformsstrict={if t.io.mon.ok && t.io.mon.okDel then 1 else 0} werr={t.nWerr} failedbatches={t.nFailedBatches} maxfiles={t.maxFiles} levelsused={t.levelsUsed} problems={t.problems.length + t.io.problems.length}"
+  IO.println s!"done lines={t.lineNo} writes={t.nWrites} gets={t.nGets} iterops={t.nIter} flushes={t.nFlush} compactions={t.nCompact} trivialmoves={t.nTrivial} recoveries={t.nRecover} invchecks={t.nInv} vers={t.nVer} ls={t.nLs} lifecycle={t.nLifecycle} repairs={t.nRepairs} liveiterops={t.nLongIterOps} crashes={t.nCrash} crashes2={t.nCrash2} crashnonempty={t.nCrashNontrivial} jevents={t.nJ} ioevents={t.io.nEvents} edits={t.io.nEdits} conforms={if t.io.mon.ok then 1 else 0} conformsstrict={if t.io.mon.ok && t.io.mon.okDel then 1 else 0} werr={t.nWerr} failedbatches={t.nFailedBatches} maxfiles={t.maxFiles} levelsused={t.levelsUsed} problems={t.problems.length + t.io.problems.length}"
